@@ -14,7 +14,7 @@ Brute(d) ==
                     S(i) == IF i = 0 THEN 0 ELSE e[i][f[i]] + S(i - 1)
                 IN S(Len(e)) : g \in Injections(Len(e), Len(e[1]))}
   IN CHOOSE x \in costs : \A y \in costs : x <= y
-SelfInit == mat \in Matrices
+SelfInit == \E n \in 1..MaxN, m \in 1..MaxN : mat \in [1..n -> [1..m -> 0..MaxC]]
 SelfNext == UNCHANGED mat
 SelfSpec == SelfInit /\ [][SelfNext]_mat
 DPEqualsBrute == MinCost(mat) = Brute(mat)
